@@ -56,6 +56,8 @@ kind except custom types and fields promoted from nullable embedded messages; th
     ('C04_message_round_trip_nofloat32', 'copy_round_trip_nofloat32', 'the same without float32 fields, free of the classical axioms Flocq brings in'),
     ('C04_promoted_scalar_round_trip_partial', 'promoted_scalar_round_trip_partial', 'round trip of a scalar promoted from a nullable embedded message: nil stays nil, a set message whose promoted field is zero comes back nil (normal form), any other value comes back exactly'),
     ('C04_embedded_allocated', 'copy_from_allocates_parent', 'a known non-null promoted attribute allocates the embedded message'),
+    ('C04_message_round_trip_embedded_partial', 'copy_round_trip_embedded_partial', 'the whole-message round trip WITH fields promoted from a nullable embedded message (all six kinds below the pointer): no diagnostics either way, and the value comes back up to the normal form, in which a nil embedded message and one all of whose promoted fields are absent are the same (class rte_ok)'),
+    ('C04_message_round_trip_embedded_nofloat32', 'copy_round_trip_embedded_nofloat32', 'the same without float32 fields, free of the classical axioms'),
 ])
 
 T['C05'] = ("""C05 Null and unknown Terraform values reset the target to zero or nil.""", [
@@ -71,6 +73,9 @@ T['C05'] = ("""C05 Null and unknown Terraform values reset the target to zero or
     ('C05_missing_keeps_prior', 'from_field_unshaped_keeps_prior', "boundary: an attribute that is missing or of another constructor is reported and leaves the field as the target had it (that is C06's business)"),
     ('C05_embedded_reset', 'copy_from_resets_parent', 'a nullable embedded message all of whose promoted attributes are null, unknown or missing is nil after CopyFrom, whatever the target held'),
     ('C05_embedded_state', 'copy_from_parent_state', 'in general it is allocated exactly when some promoted attribute is known and non-null'),
+    ('C05_prior_independent_embedded_partial', 'copy_from_prior_independent_embedded_partial', 'prior independence WITH fields promoted from nullable embedded messages (chains of any length, oneofs and custom types below the pointer included): diagnostics and every Go field of the result are the same for any two targets, whatever their embedded messages held; a missing promoted attribute cannot keep prior content'),
+    ('C05_prior_independent_embedded_eq_partial', 'copy_from_prior_independent_embedded_eq_partial', 'as an equality of results for targets with the same field order'),
+    ('C05_all_null_resets_embedded_partial', 'copy_from_all_null_resets_embedded_partial', 'an all-null/unknown object yields the zero message with every embedded pointer nil, whatever the target held'),
 ])
 
 T['C06'] = ("""C06 Malformed input becomes diagnostics, never a panic.""", [
